@@ -145,6 +145,7 @@ func (m *monitor) race(schedule string, imp, loc int) {
 	<-secondDone
 	m.hdb.arm(nil)
 	m.calls++
+	m.callsSinceRestart++
 	m.count("concurrent_write_pairs")
 	m.count("schedule_" + schedule)
 	m.given[imp], m.given[loc] = true, true
